@@ -64,6 +64,10 @@ def removal (o : Opts) (failing : List Nat) (groups : List GroupReport) (removeS
     { outcome := if done.length == removeSet.length then .ok else .error "remove-failed"
       groups := groups, removeSet := removeSet, removed := done }
 
+/-- the snapshots the `FindAll` callback was given -/
+def snapIds (evs : List Ev) : List Nat :=
+  evs.filterMap fun e => match e with | .snap n => some n | _ => none
+
 def abort (oc : Outcome) : Run := { outcome := oc, groups := [], removeSet := [], removed := [] }
 
 /-- policy of one group: `ApplyPolicy`, then the guard -/
@@ -89,8 +93,7 @@ def runForget (sub : Int → Dur → Int) (now : Int) (visit : List PSnap) (late
     match evs.find? (fun e => match e with | .err _ => true | _ => false) with
     | some (.err k) => abort (.error k)
     | _ =>
-      let ids := evs.filterMap fun e => match e with | .snap n => some n | _ => none
-      removal o failing [] (dedup ids)
+      removal o failing [] (dedup (snapIds evs))
   else
     let selected := visit.filter fun s => o.filter.matches s.sn
     let groups := groupP o.groupBy selected
